@@ -97,8 +97,8 @@ def r1(ctx) -> None:
     ctx.ob("C17-R1", "word/splits-labels", wpat in (r"[\w]+", r"\w+"), None, wd or rp.node, "labels are recovered as the maximal runs of word characters",
            construct=f"word = {norm(wd) if wd is not None else '?'}")
     sk = ctx.fn(SAN, "sanitize_dict_keys")
-    txt = norm(sk.node)
-    ok = "rp.tuple_word.match(k)" in txt and "k_new = tuple(map(str, rp.word.findall(k)))" in txt and "d_new[k_new] = v" in txt
+    txt = lib.xfn(sk, ctx.repo)  # temporaries looked through
+    ok = "rp.tuple_word.match(k)" in txt and "d_new[tuple(map(str, rp.word.findall(k)))] = v" in txt
     ctx.ob("C17-R1", "sanitize_dict_keys/rebuilds-tuples", ok, sk, sk.node, "matching keys are turned back into tuples of their words, values kept", construct="k_new = tuple(map(str, rp.word.findall(k)))")
     lm = ctx.fn(YML, "YmlProjectIo.load_model")
     cs = [c for c in lib.calls(lm) if norm(c.func) == "sanitize_yaml"]
@@ -132,7 +132,7 @@ def r2(ctx) -> None:
     ok = "'exclude_from_dict': True" in norm(ex.node)
     ctx.ob("C17-R2", "exclude_from_dict_field/metadata", ok, ex, ex.node, "excluded fields are tagged", construct="metadata={'exclude_from_dict': True}")
     rpp = ctx.fn(UIO, "relative_posix_path")
-    txt = norm(rpp.node)
+    txt = lib.xfn(rpp, ctx.repo)
     ok = "os.path.relpath(source_path.as_posix(), Path(base_path).as_posix())" in txt and "return Path(source_path).as_posix()" in txt
     ctx.ob("C17-R2", "relative_posix_path/relative-to-base", ok, rpp, rpp.node, "paths are made relative to the base folder and rendered as posix", construct="os.path.relpath(source, base)")
     cont = [c for c in lib.nodes(rpp, ast.Compare) if len(c.ops) == 1 and isinstance(c.ops[0], ast.In) and isinstance(c.comparators[0], ast.Attribute)
